@@ -405,6 +405,13 @@ func (P *Prover) poly(v ssa.Value) Poly {
 		if b, ok := x.Call.Value.(*ssa.Builtin); ok && b.Name() == "len" {
 			return P.lenOf(x.Call.Args[0])
 		}
+		// a module helper that just computes an arithmetic expression of its parameters
+		// (triangleSize(n) = n*(n-1)/2, edgeIndex(i, j) = j*(j-1)/2 + i): the expression itself
+		if f := x.Call.StaticCallee(); f != nil && P.c != nil && P.c.inModule(f) && f != P.fn && f.Blocks != nil && isInt(x.Type()) && intBits(x.Type()) == 64 {
+			if q, ok := P.arithHelper(x, f); ok {
+				return q
+			}
+		}
 	case *ssa.UnOp:
 		if x.Op == token.MUL && isInt(x.Type()) {
 			if ia, ok := x.X.(*ssa.IndexAddr); ok {
@@ -620,6 +627,56 @@ func (P *Prover) predFacts(call *ssa.Call, f *ssa.Function, truth bool) []Poly {
 		}
 	}
 	return out
+}
+
+// arithHelper: every return of f yields the same polynomial over f's parameters (no loops, no
+// loads, no phis in it): that polynomial with the call's arguments substituted.
+var arithDepth int
+
+func (P *Prover) arithHelper(call *ssa.Call, f *ssa.Function) (Poly, bool) {
+	if arithDepth > 3 || f.Signature.Results().Len() != 1 {
+		return nil, false
+	}
+	arithDepth++
+	defer func() { arithDepth-- }()
+	CP := predProver(P.c, f)
+	var res Poly
+	n := 0
+	for _, b := range f.Blocks {
+		ret, ok := b.Instrs[len(b.Instrs)-1].(*ssa.Return)
+		if !ok {
+			continue
+		}
+		q := CP.poly(ret.Results[0])
+		if n > 0 && q.key() != res.key() {
+			return nil, false
+		}
+		res = q
+		n++
+	}
+	if n == 0 {
+		return nil, false
+	}
+	// only parameters (and divisions / remainders of them) may occur
+	pure := true
+	var check func(a *Atom)
+	check = func(a *Atom) {
+		switch a.kind {
+		case aVal:
+			if _, isParam := a.val.(*ssa.Parameter); !isParam {
+				pure = false
+			}
+		case aDiv, aRem:
+			CP.atomsOf(a.inner, check)
+		default:
+			pure = false
+		}
+	}
+	CP.atomsOf(res, check)
+	if !pure {
+		return nil, false
+	}
+	return translatePolyX(CP, res, f, P, call.Call.Args, nil)
 }
 
 var predProvers = map[*ssa.Function]*Prover{}
